@@ -70,7 +70,7 @@ CHECKS = {
  },
  'C08': {
   'engine': 'V+K', 'design_ref': 'DESIGN.md §5 C08, §10.4g',
-  'technique': 'Verus proof of the real TryFrom<CommandView> for ctap1::Request (verbatim) against the decision table, for a data field of any length; loop-free Kani contract harnesses over every raw APDU up to 400 bytes through the real iso7816 parser, pointer-identity postconditions',
+  'technique': 'Verus proof of the real TryFrom<CommandView> for ctap1::Request (verbatim) against the decision table, for a data field of any length; loop-free Kani contract harnesses over every raw APDU up to 400 bytes (thorough: 65600 = the whole ISO 7816 domain) through the real iso7816 parser, pointer-identity postconditions',
   'text': 'Unbounded in the data length (Verus): class first, Version shortcut, Register iff 64 bytes, Authenticate iff P1 in {3,7,8} and exactly 65+data[64] bytes, errors otherwise, borrowed outputs are exactly the windows [0,32) [32,64) [65,len) of the data field, no unwrap() can fire. On the real iso7816 code (Kani, complete for APDUs up to 400 bytes = every decision boundary in all four length encodings): the same table from the raw bytes, outputs identical by address to the input window, framing checked not assumed. ControlByte table proved by Verus.',
   'note': 'iso7816 CommandView is a ghost model in the Verus unit (class byte, instruction, data window) and the real thing in the Kani harnesses; `X.try_into()` rewritten to `TryFrom::try_from(X)`; CBMC bit-precise semantics, 64-bit usize.',
  },
